@@ -1189,8 +1189,9 @@ def check_czar(run, exe, model, cases, scratch):
 
 def gen_opes(r, cid, big=False):
     n = r.choice([2, 3, 4, 5, 6] if big else [2, 3, 4])
-    pace = r.choice([1, 2, 3])
-    T = r.randint(3, 9)
+    pace = r.choice([1, 2, 3, 5])
+    T = r.randint(3, 9) + (4 if pace == 5 else 0)
+    S0 = r.choice([0, 0, 2 ** 31 - 1, 2 ** 32 + 3, 2 ** 53 - 2, 2 ** 62 - 30])
     steps = [[V.dyadic(r, -8, 8, bits=4) for _ in range(n)] for _ in range(T)]
     variant = r.choice(["plain", "plain", "compress", "nlist", "adaptive", "long", "explore"])
     if variant == "long":
@@ -1200,7 +1201,7 @@ def gen_opes(r, cid, big=False):
     elif variant != "plain":
         # close positions, so that kernels are merged / neighbour lists differ / the adaptive width matters
         steps = [[V.dyadic(r, -1, 1, bits=4) for _ in range(n)] for _ in range(T + 4)]
-    return {"kind": "opes", "id": cid, "n": n, "pace": pace, "variant": variant, "nlreset": r.random() < 0.5, "smp": r.random() < 0.4, "steps": steps}
+    return {"kind": "opes", "id": cid, "n": n, "pace": pace, "variant": variant, "step0": S0, "nlreset": r.random() < 0.5, "smp": r.random() < 0.4, "steps": steps}
 
 
 def check_opes(run, exe, model, cases, scratch):
@@ -1220,7 +1221,7 @@ def check_opes(run, exe, model, cases, scratch):
             continue
         rounds = []
         for t, row in enumerate(c["steps"]):
-            if t > 0 and t % c["pace"] == 0:
+            if t > 0 and (c.get("step0", 0) + t) % c["pace"] == 0:
                 rounds.append([V.hexf(x) for x in row])
             dumps = res[t]
             if any(d is None for d in dumps):
@@ -1252,7 +1253,7 @@ def check_opes(run, exe, model, cases, scratch):
             if t == 0:
                 base = dumps[0]
                 hrounds = []
-            if t > 0 and t % c["pace"] == 0:
+            if t > 0 and (c.get("step0", 0) + t) % c["pace"] == 0:
                 nk = len(dumps[0]["kernels"])
                 hrounds.append([k[0] for k in dumps[0]["kernels"][nk - c["n"]:]])
                 # oracle on the implementation alone: the sum of weights is the initial value plus the weight of every
